@@ -372,6 +372,11 @@ BODY = [
     F("\\setcounter{secnumdepth}{1}\n", touch=["counters"]),
     F("\\setcounter{equation}{5}\\begin{equation}u\\end{equation}\n", observe=["math"], touch=["counters"]),
     F("\\renewcommand{\\thesection}{\\Roman{section}}\n", touch=["counters"]),
+    F("\\numberwithin{section}{part}\n", touch=["counters"], pkgs=["amsmath"]),
+    F("\\numberwithin{equation}{section}\\begin{equation}n=w\\label{eq:nw}\\end{equation} see \\ref{eq:nw} mCZ\n",
+      touch=["counters"], observe=["math", "labels"], pkgs=["amsmath"]),
+    F("\\numberwithin{figure}{section}\\begin{figure}\\caption{fig mDA}\\label{fig:nw}\\end{figure} \\ref{fig:nw}\n",
+      touch=["counters"], observe=["labels"], pkgs=["amsmath"]),
     F("\\begin{quote} quoted mAX \\end{quote}\\begin{center} centred mAY \\end{center}\n"),
     F("``quoted'' text --- dash -- range mAZ\n\n", observe=["text"]),
     F("\\begin{eqnarray} a &=& b \\\\ c &=& d \\nonumber \\end{eqnarray}\n", observe=["math"]),
